@@ -784,7 +784,9 @@ mod x86_64 {
         #[inline]
         pub unsafe fn write(frame: PhysFrame, flags: ApicBaseFlags) {
             let (_, old_flags) = Self::read_raw();
-            let reserved = old_flags & !(ApicBaseFlags::all().bits());
+            // The raw value also contains the old base address (bits 12..52), which must be
+            // replaced by the new frame and not preserved like the reserved bits.
+            let reserved = old_flags & !(ApicBaseFlags::all().bits() | 0x000f_ffff_ffff_f000);
             let new_flags = reserved | flags.bits();
 
             unsafe {
